@@ -380,7 +380,12 @@ pub fn gen_timespan(r: &mut Rng, cfg: &GenCfg, canonical: bool) -> TimeSpan {
     }
 }
 
-pub const COMMENT_POOL: [&str; 12] = ["c", "x", "by appointment", "a, b", "b", "a", "on call", "Ring the bell", "été", "x, y", "  spaced ", "closed for lunch; really"];
+// (the grammar allows any character but '"' in a comment: a backslash, a tab, a decomposed accent
+// (combining mark), a zero-width space, an apostrophe, CJK and an emoji are part of the pool)
+pub const COMMENT_POOL: [&str; 20] = [
+    "c", "x", "by appointment", "a, b", "b", "a", "on call", "Ring the bell", "été", "x, y", "  spaced ", "closed for lunch; really",
+    "back\\slash", "tab\there", "ferme\u{301}", "zero\u{200b}width", "l'été", "営業中", "open 🙂", "\\",
+];
 
 pub fn gen_comments(r: &mut Rng, cfg: &GenCfg, allow_two: bool) -> UniqueSortedVec<Arc<str>> {
     if !r.chance(cfg.comments_pct) {
